@@ -282,6 +282,12 @@ def run(ctx):
     p.bool_cmp_atoms = False
     p.pattern_columns = False
     p.pattern_exprs = False
+    # every shape of the date-time literal (the reference evaluator is not involved here:
+    # the two spellings are compared with each other)
+    p.datetime_lits = scalar.DT_LITS + ["2020-01-01T00:00:00Z", "2020-01-01T00:00:00+00:00",
+                                        "2019-12-31T23:59:59-00:00", "2020-01-01T00:00+00:00",
+                                        "2020-01-01T01:00:00+01:00", "2021-06-15T12:30:45.000Z",
+                                        "2021-06-15T12:30"]
     allrows = RW.rows_for(["a", "s", "d", "flag", "f"], rng, 150)
     sqlite_env.load(allrows)
     from .c02 import load as dj_load
